@@ -39,6 +39,7 @@ type Spec struct {
 	ClassifyHang func(dump string) (string, bool)
 	// Exhaustive is set in the evidence when the named counter is positive.
 	ExhaustiveCounter string
+	ExhaustiveMin     int64
 }
 
 var registry = map[string]*Spec{}
@@ -329,7 +330,7 @@ func runMain(args []string) int {
 	if len(missing) > 0 {
 		cov["required_but_unobserved"] = missing
 	}
-	if spec.ExhaustiveCounter != "" && total.Counters[spec.ExhaustiveCounter] > 0 {
+	if spec.ExhaustiveCounter != "" && total.Counters[spec.ExhaustiveCounter] > 0 && total.Counters[spec.ExhaustiveCounter] >= spec.ExhaustiveMin {
 		cov["exhaustive"] = true
 	}
 	if len(total.Samples) == 0 {
